@@ -506,6 +506,25 @@ func main() {
 		s.Count("kind:" + kind)
 	}
 	thorough := fl.Tier == "thorough"
+	// 0. cache: long histories, bound enforced throughout, model on the prefix (generated first: their
+	// shards are the most expensive ones for Coq and should be started first)
+	long := 10000
+	caps := []int{1, 2, 3, 5, 8, 16, 33, 64}
+	if thorough {
+		long = 1000000
+		caps = nil
+		for c := 1; c <= 64; c++ {
+			caps = append(caps, c)
+		}
+	}
+	for _, cap := range caps {
+		n := long
+		if thorough && cap > 8 && cap%8 != 0 {
+			n = long / 10 // every capacity 1..64 gets 10^5 calls, 15 of them 10^6
+		}
+		emit(Case{Kind: "lru", Cap: cap, GSeed: fl.Seed + uint64(cap)*1000003, GLen: n}, "lru-long")
+		emit(Case{Kind: "lru", Cap: cap, GSeed: fl.Seed + uint64(cap)*1000003, GLen: n / 10, GNest: true}, "lru-long-reentrant-concurrent")
+	}
 	// 1. map histories: exhaustive small + random, ending with every iterator closed
 	d := 5
 	nrand := 600
@@ -578,24 +597,6 @@ func main() {
 		} else {
 			emit(Case{Kind: "lru", Cap: cap, Ops: genLru(fl.Seed*7919+uint64(i), 60, cap, true)}, "lru-random-short-reentrant-concurrent")
 		}
-	}
-	// 4. cache: long histories, bound enforced throughout, model on the prefix
-	long := 10000
-	caps := []int{1, 2, 3, 5, 8, 16, 33, 64}
-	if thorough {
-		long = 1000000
-		caps = nil
-		for c := 1; c <= 64; c++ {
-			caps = append(caps, c)
-		}
-	}
-	for _, cap := range caps {
-		n := long
-		if thorough && cap > 8 && cap%8 != 0 {
-			n = long / 10 // every capacity 1..64 gets 10^5 calls, 15 of them 10^6
-		}
-		emit(Case{Kind: "lru", Cap: cap, GSeed: fl.Seed + uint64(cap)*1000003, GLen: n}, "lru-long")
-		emit(Case{Kind: "lru", Cap: cap, GSeed: fl.Seed + uint64(cap)*1000003, GLen: n / 10, GNest: true}, "lru-long-reentrant-concurrent")
 	}
 	s.Close("map histories: all well-formed histories of d state-changing calls over 2 keys / 2 iterators with the probe suffix, and random histories (60 calls, 3 keys, 3 iterators; 150 calls, 5 keys, 8 iterators; 250 calls of churn: entries removed under iterators that are closed later; fill/drain rounds with First on the empty map, First while iterators are parked on removed head entries and iterators closed in place, 6 rounds and 150 (thorough 300) rounds) ending with every iterator closed, the hook's node count checked against Len()+1+open iterators after every call; "+
 		"cache histories: all sequences of the given depth over {GetOrCreate 1,2,3, failing GetOrCreate, Remove 1,2, Clear} for capacities 1..3, random histories of 100 calls, random histories with calls made re-entrantly from the create function and with batches of concurrent creators (parked inside the create function, released one by one), and long random histories (quick 10^4, thorough 10^5..10^6 calls) for capacities 1..64 with the hook's node count checked <= capacity+1 after every call and the model evaluated on the first 2000 calls; non-trivial = at least 3 calls", false)
